@@ -11,7 +11,7 @@ SEEDS="${SELFTEST_SEEDS:-40}"
 N="${SELFTEST_RUNS:-150}"
 TMP="$(mktemp -d /var/tmp/vsim-selftest-XXXXXX)"
 trap 'rm -rf "$TMP"' EXIT
-export GORACE="halt_on_error=1 exitcode=66"
+export GORACE="halt_on_error=1 exitcode=66 atexit_sleep_ms=0"
 fail=0
 for P in C12 C13 C19 C20; do
   pids=()
